@@ -30,6 +30,21 @@ package gaussian
 //@ pred wfCalc11(c *Calculator) = c != nil && c.dist != nil && c.repeatWindow > 0 && c.repeatWindow <= 4503599627370496 &&
 //@     c.repeatWindow * len(c.weights) <= 4503599627370496 && c.averageWeight != 0.0
 //@
+//@ // NewCalculator, second pass (variant @mech, rounded-real floats instead of the abstract floats of the C14 pass): the
+//@ // calculator is built from the arguments as given: the curve is centred on the configured peak with the configured
+//@ // deviation, the weights are stored unchanged, no weights means weight 1, and a single weight is its own mean (so
+//@ // that For scales the window by weight/mean = 1).
+//@ func NewCalculator @mech
+//@   props C11
+//@   fp-inexact
+//@   modifies nothing
+//@   requires -4503599627370496 <= peak && peak <= 4503599627370496 && 0 <= stddev && stddev <= 4503599627370496
+//@   assert before call gaussian.NewDistribution : [curve-centred-on-the-configured-peak] arg0 == real(peak) && arg1 == real(stddev)
+//@   loop 0 invariant -1 <= rangeindex && rangeindex < len(weights) && (rangeindex == -1 ==> totalWeight == 0.0) && (rangeindex == 0 ==> abs(totalWeight - weights[0]) <= abs(weights[0]) / 1048576.0 + 0.000000001)
+//@   ensures [no-weights-mean-one] result.1 == nil && len(weights) == 0 ==> result.0.averageWeight == 1.0
+//@   ensures [single-weight-is-its-own-mean] result.1 == nil && len(weights) == 1 ==> abs(result.0.averageWeight - weights[0]) <= abs(weights[0]) / 524288.0 + 0.00000001
+//@   ensures [stored-as-given] result.1 == nil ==> result.0 != nil && result.0.weights == weights && result.0.frequency == frequency && result.0.repeatWindow == repeatWindow
+//@
 //@ func (*Calculator).For
 //@   props C11
 //@   fp-inexact
